@@ -300,6 +300,7 @@ MP = "pinocchio::state::whirlpool::position::"
 ALL = ("atoms", "calls", "returns")
 REWARD_B = {"rename": {"next_whirlpool_reward_growth_global": "next_whirlpool_reward_infos"},
             "field_map": {"next_reward_growth_global": "reward_infos"}}
+PTA = "pinocchio::state::whirlpool::tick_array::"
 PAIRS = [
     dict(a="manager::whirlpool_manager::next_whirlpool_liquidity", b=PM + "pino_next_whirlpool_liquidity"),
     dict(a="manager::tick_manager::next_tick_modify_liquidity_update", b=PM + "pino_next_tick_modify_liquidity_update",
@@ -326,6 +327,15 @@ PAIRS = [
          exempt={r"^update_rewards_and_liquidity\(whirlpool, modify_liquidity_update\.reward_infos, modify_liquidity_update\.whirlpool_liquidity, reward_last_updated_timestamp\)$":
                  "same three values, different setter signature (growth array instead of reward infos)",
                  r"^update_liquidity_and_reward_growth_global\(whirlpool, modify_liquidity_update\.whirlpool_liquidity, modify_liquidity_update\.next_reward_growth_global, reward_last_updated_timestamp\)$": "same"}),
+    dict(a="state::tick::Tick::check_is_out_of_bounds", b=PTA + "check_is_out_of_bounds"),
+    dict(a="state::tick_array::TickArrayType::in_search_range", b=PTA + "TickArray::in_search_range"),
+    dict(a="state::tick_array::TickArrayType::check_in_array_bounds", b=PTA + "TickArray::check_in_array_bounds"),
+    dict(a="state::tick_array::TickArrayType::is_min_tick_array", b=PTA + "TickArray::is_min_tick_array"),
+    dict(a="state::tick_array::TickArrayType::is_max_tick_array", b=PTA + "TickArray::is_max_tick_array"),
+    dict(a="state::tick_array::TickArrayType::tick_offset", b=PTA + "TickArray::tick_offset"),
+    dict(a="state::tick_array::get_offset", b=PTA + "get_offset"),
+    dict(a="state::tick_array::TickArraysMut::<'a>::load", b=PTA + "loader::TickArraysMut::<'a>::load"),
+    dict(a="state::tick_array::TickArraysMut::<'a>::deref_mut", b=PTA + "loader::TickArraysMut::<'a>::deref_mut"),
     dict(a="state::position::validate_tick_range_for_whirlpool", b=MP + "validate_tick_range_for_whirlpool"),
     dict(a="state::position::Position::reset_position_range", b=MP + "MemoryMappedPosition::reset_position_range", keys=("atoms", "returns"),
          exempt={r"^is_position_empty\(self(, keep_owed)?\) =>": "Pinocchio adds keep_owed (reposition keeps owed fees); with keep_owed=false both demand a fully empty position (pair below)"}),
@@ -397,7 +407,7 @@ def R5_ported_pairs(run):
     for pr in PAIRS:
         compare_pair(run, "R5", pr["a"], pr["b"], keys=pr.get("keys", ALL), subs_b=pr.get("subs_b", ()), exempt=pr.get("exempt", {}),
                      norm_a=pr.get("na"), norm_b=pr.get("nb"))
-    run.floor("R5", "ported pairs", len(PAIRS), 16)
+    run.floor("R5", "ported pairs", len(PAIRS), 25)
 
 
 RULES = [R1_layouts, R2_discriminators, R3_accessors, R4_routing, R5_ported_pairs]
